@@ -163,6 +163,8 @@ namespace sqf::runtime
                 // The handler code now runs in this frame. It must not handle what it raises itself:
                 // errors and throws inside a handler belong to the next enclosing handler.
                 m_error_behavior = {};
+                // ... and it is a scope of its own: the name given to the abandoned block does not carry over
+                scope_name({});
                 seek(0, ::sqf::runtime::frame::seekpos::start);
 #ifdef DF__SQF_RUNTIME__ASSEMBLY_DEBUG_ON_EXECUTE
 
